@@ -1,5 +1,4 @@
 """C12 — the controller matches entanglement responses to requests under any interleaving."""
-import itertools
 import json
 import os
 
@@ -16,12 +15,6 @@ def jsonable(x):
     return [jsonable(y) for y in x] if isinstance(x, (list, tuple)) else x
 
 
-def from_json(x):
-    if isinstance(x, dict):
-        return x
-    return tuple(from_json(y) for y in x) if isinstance(x, list) else x
-
-
 def from_pm(pm):
     return tuple(pm) if isinstance(pm, list) else pm
 
@@ -30,14 +23,26 @@ def ev_from_json(e):
     e = list(e)
     k = e[0]
     if k == "Create":
-        return ("Create", tuple(e[1]), e[2], list(e[3]), e[4], e[5], e[6], e[7], [tuple(w) for w in e[8]])
+        return ("Create", e[1], tuple(e[2]), e[3], list(e[4]), e[5], e[6], e[7], e[8], [tuple(w) for w in e[9]])
     if k == "CreateRefused":
-        return ("CreateRefused", tuple(e[1]), e[2], list(e[3]), e[4], e[5], e[6], e[7])
+        return ("CreateRefused", e[1], tuple(e[2]), e[3], list(e[4]), e[5], e[6], e[7], e[8])
     if k == "Recv":
-        return ("Recv", tuple(e[1]), None if e[2] is None else list(e[2]), e[3], e[4], e[5], [tuple(w) for w in e[6]])
+        return ("Recv", e[1], tuple(e[2]), None if e[3] is None else list(e[3]), e[4], e[5], e[6], [tuple(w) for w in e[7]])
     if k == "Resp":
         return ("Resp", dict(e[1]))
     return tuple(e)
+
+
+def upgrade(events, um):
+    """replay files written before the model had several applications: one application 0 with a
+    unit module of size `um`, events without application field"""
+    out = [("Init", 0, um)]
+    for e in events:
+        e = list(e)
+        if e[0] in ("Create", "Recv", "CreateRefused", "Free", "Alloc"):
+            e = [e[0], 0] + e[1:]
+        out.append(e)
+    return out
 
 
 class Runner:
@@ -48,19 +53,19 @@ class Runner:
         self.next_id = 0
         self.idmap = {}
 
-    def world(self, node, um, pm="id"):
-        return ei.EprWorld(self.m, self.classes, node, um, pm)
+    def world(self, node, pm="id"):
+        return ei.EprWorld(self.m, self.classes, node, pm)
 
     def node(self, path, ev, fault, ob):
         self.next_id += 1
         self.idmap[self.next_id] = list(path)
         return dict(id=self.next_id, ev=ev, fault=fault, obs=ob, kids=[])
 
-    def run(self, node, um, events, oracle=True, want_tree=True, pm="id"):
+    def run(self, node, events, oracle=True, want_tree=True, pm="id"):
         """returns (root, failures [(step, text)], faults list)"""
-        pm = tuple(pm) if isinstance(pm, list) else pm
-        w = self.world(node, um, pm)
-        ref = ei.FifoRef(node, um, pm) if oracle else None
+        pm = from_pm(pm)
+        w = self.world(node, pm)
+        ref = ei.FifoRef(node, pm) if oracle else None
         root = cur = None
         fails, faults = [], []
         for i, ev in enumerate(events):
@@ -95,7 +100,8 @@ class Gen:
     """random event sequences that obey the environment contract: the last wait of every
     subroutine covers its whole result array (issuer_alive), the response type of a
     (remote, purpose) is the type of its requests (type_consistent), virtual ids in range,
-    physical ids of keep responses fresh (C13's fresh_delivery)"""
+    physical ids of keep responses fresh (C13's fresh_delivery), an application is stopped only
+    when it has no outstanding request and no waiting subroutine"""
 
     def __init__(self, rng, stats):
         self.rng = rng
@@ -105,7 +111,6 @@ class Gen:
         rng = self.rng
         # own node id and remote node ids over {0,1,2,3}: in particular remote 0 with own != 0
         node = rng.choice([0, 1, 2, 3])
-        um = rng.choice([2, 3, 4])
         others = [x for x in (0, 1, 2, 3) if x != node]
         rng.shuffle(others)
         remotes = others[:2]
@@ -115,10 +120,18 @@ class Gen:
         pm = rng.choice(["id", "swap", "swap", ("off", 3), ("off", -1)])
         keys = rng.sample([(r, sk) for r in remotes for sk in (0, 1)], rng.choice([1, 2, 2, 3]))   # (remote, local socket)
         tp = {k: rng.random() < 0.7 for k in keys}
-        ref = ei.FifoRef(node, um, pm)
+        qfmt = rng.choice(["native", "native", "qlink", "mixed"])      # how the link layer hands responses over
+        napps = rng.choice([1, 2, 2, 3])
+        app_ids = rng.sample([0, 1, 2, 5], napps)
+        ref = ei.FifoRef(node, pm)
         evs = []
         addr = [0]
         cid = [0]
+
+        def emit(ev):
+            ref.apply(ev)
+            self.stats[ev[0]] = self.stats.get(ev[0], 0) + 1
+            evs.append(ev)
 
         def fresh_addr():
             addr[0] += 1
@@ -137,148 +150,194 @@ class Gen:
             j = rng.randrange(n)
             return [("WAll", res, 10 * j, 10 * j + 10), full]
 
+        emit(("Init", app_ids[0], rng.choice([2, 3, 4])))
         forced = None
         while len(evs) < length:
             r = rng.random()
             alive = sorted(ref.wait)
-            if forced is not None and len(alive) < 4:
+            live_apps = sorted(ref.ums)
+            if forced is not None and len(alive) < 4 and forced[1] in ref.ums:
                 ev, forced = forced, None
-            elif r < 0.05:
+            elif r < 0.10:
+                # application lifecycle, interleaved with everything else
+                unreg = [a for a in app_ids if a not in ref.ums]
+                idle = [a for a in live_apps if a not in ref.busy_apps()]
+                if unreg and (rng.random() < 0.6 or not idle):
+                    ev = ("Init", rng.choice(unreg), rng.choice([2, 3, 4]))
+                elif idle and len(live_apps) > 1:
+                    ev = ("Stop", rng.choice(idle))
+                else:
+                    continue
+            elif not live_apps:
+                continue
+            elif r < 0.14:
                 # fault injection: the network stack refuses the request (put raises), the application
                 # retries the create on the same socket (possibly after other events)
+                app = rng.choice(live_apps)
+                um = len(ref.ums[app])
                 key = rng.choice(keys)
                 n = rng.choice([1, 2, 2, 3])
                 vs = [rng.randrange(um) for _ in range(n)] if tp[key] else []
-                ev = ("CreateRefused", key, tp[key], vs, n, fresh_addr(), fresh_addr(), fresh_addr())
+                ev = ("CreateRefused", app, key, tp[key], vs, n, fresh_addr(), fresh_addr(), fresh_addr())
                 qarr, args, res = fresh_addr(), fresh_addr(), fresh_addr()
                 n2 = rng.choice([n, n, 1])
                 vs2 = [rng.randrange(um) for _ in range(n2)] if tp[key] else []
-                retry = ("Create", key, tp[key], vs2, n2, qarr, args, res, waits(res, n2))
                 if rng.random() < 0.7:
-                    forced = retry
-            elif r < 0.22 and len(alive) < 4:
+                    forced = ("Create", app, key, tp[key], vs2, n2, qarr, args, res, waits(res, n2))
+            elif r < 0.30 and len(alive) < 4:
+                app = rng.choice(live_apps)
+                um = len(ref.ums[app])
                 key = rng.choice(keys)
                 n = rng.choice([1, 1, 2, 2, 3])
                 vs = [rng.randrange(um) for _ in range(n)]
                 if rng.random() < 0.5:
                     qarr, args, res = fresh_addr(), fresh_addr(), fresh_addr()
-                    ev = ("Create", key, tp[key], vs if tp[key] else [], n, qarr, args, res, waits(res, n))
+                    ev = ("Create", app, key, tp[key], vs if tp[key] else [], n, qarr, args, res, waits(res, n))
                 else:
                     qarr, res = fresh_addr(), fresh_addr()
-                    ev = ("Recv", key, vs if tp[key] else None, n, qarr, res, waits(res, n))
-            elif r < 0.62:
+                    ev = ("Recv", app, key, vs if tp[key] else None, n, qarr, res, waits(res, n))
+            elif r < 0.66:
                 key = rng.choice(keys)
                 creator = rng.random() < 0.5
                 cid[0] += 1
+                fmt = qfmt if qfmt != "mixed" else rng.choice(["native", "qlink"])
                 ev = ("Resp", dict(k=tp[key], remote=key[0], purpose=ei.purpose_of(pm, key[1]), flag=0 if creator else 1,
                                    q=(100 + cid[0]) if tp[key] else rng.randrange(2), cid=cid[0],
                                    seq=rng.randrange(8), good=rng.randrange(100),
-                                   x=rng.randrange(1000) if tp[key] else rng.randrange(3), bell=rng.randrange(4)))
-            elif r < 0.70:
+                                   x=rng.randrange(1000) if tp[key] else rng.randrange(3), bell=rng.randrange(4), fmt=fmt))
+                self.stats[f"response:{'K' if tp[key] else 'M'}:{fmt}:{'create' if creator else 'receive'}-role"] = \
+                    self.stats.get(f"response:{'K' if tp[key] else 'M'}:{fmt}:{'create' if creator else 'receive'}-role", 0) + 1
+            elif r < 0.73:
                 ev = ("Retry",)
-            elif r < 0.82 and alive:
+            elif r < 0.84 and alive:
                 ev = ("Poll", rng.choice(alive))
-            elif r < 0.94:
-                busy = [v for v, p in enumerate(ref.um) if p is not None]
+            elif r < 0.95:
+                busy = [(a, v) for a in live_apps for v, p in enumerate(ref.ums[a]) if p is not None]
                 if not busy:
                     continue
-                ev = ("Free", rng.choice(busy))
+                a, v = rng.choice(busy)
+                ev = ("Free", a, v)
             else:
-                free = [v for v, p in enumerate(ref.um) if p is None]
+                free = [(a, v) for a in live_apps for v, p in enumerate(ref.ums[a]) if p is None]
                 if not free:
                     continue
-                ev = ("Alloc", rng.choice(free))
-            ref.apply(ev)
-            self.stats[ev[0]] = self.stats.get(ev[0], 0) + 1
-            evs.append(ev)
+                a, v = rng.choice(free)
+                ev = ("Alloc", a, v)
+            emit(ev)
         outstanding = sum(len(l) for l in ref.q.values())
         self.stats["max_outstanding_requests"] = max(self.stats.get("max_outstanding_requests", 0), outstanding)
         self.stats["consumed_pairs"] = self.stats.get("consumed_pairs", 0) + len(ref.consumed)
         self.stats["left_pending"] = self.stats.get("left_pending", 0) + len(ref.pending)
         self.stats[f"node:{node}"] = self.stats.get(f"node:{node}", 0) + 1
+        self.stats[f"applications:{napps}"] = self.stats.get(f"applications:{napps}", 0) + 1
         self.stats[f"purpose-map:{pm}"] = self.stats.get(f"purpose-map:{pm}", 0) + 1
         if node != 0 and any(k[0] == 0 for k in keys):
             self.stats["remote-0-with-own-nonzero"] = self.stats.get("remote-0-with-own-nonzero", 0) + 1
-        return node, um, pm, evs, len(ref.consumed)
+        return node, pm, evs, len(ref.consumed)
 
 
-def resp(key, creator, k, cid, q, pm="id"):
+def resp(key, creator, k, cid, q, pm="id", fmt="native"):
     """key = (remote, local socket); the response carries the purpose of that socket"""
     return ("Resp", dict(k=k, remote=key[0], purpose=ei.purpose_of(pm, key[1]), flag=0 if creator else 1, q=q, cid=cid, seq=cid, good=50,
-                         x=7, bell=cid % 4))
+                         x=2 if not k else 7, bell=cid % 4, fmt=fmt))
 
 
 def small_scenarios(tier):
-    """(name, own node id, unit module size, purpose map, event multiset): every ordering of the
-    events is enumerated.  A, B are (remote node, LOCAL socket); responses carry the purpose the
-    scenario's network stack assigned to that socket."""
+    """(name, own node id, purpose map, fixed prefix, event multiset): every ordering of the events
+    after the prefix is enumerated.  A, B are (remote node, LOCAL socket); responses carry the
+    purpose the scenario's network stack assigned to that socket."""
     sc = []
 
-    def two_creates(A, pm):
-        return ([("Create", A, True, [0, 1], 2, 0, 1, 2, [("WAll", 2, 0, 20)]),
-                 ("Create", A, True, [2], 1, 3, 4, 5, [("WAll", 5, 0, 10)]),
-                 resp(A, True, True, 1, 101, pm), resp(A, True, True, 2, 102, pm), resp(A, True, True, 3, 103, pm)]
+    def two_creates(A, pm, fmt="native"):
+        return ([("Create", 0, A, True, [0, 1], 2, 0, 1, 2, [("WAll", 2, 0, 20)]),
+                 ("Create", 0, A, True, [2], 1, 3, 4, 5, [("WAll", 5, 0, 10)]),
+                 resp(A, True, True, 1, 101, pm, fmt), resp(A, True, True, 2, 102, pm), resp(A, True, True, 3, 103, pm, fmt)]
                 + ([("Retry",)] if tier != "quick" else []))
 
-    def mixed(A, pm):
-        return [("Create", A, True, [0], 1, 0, 1, 2, [("WAll", 2, 0, 10)]),
-                ("Recv", A, [0], 1, 3, 4, [("WAll", 4, 0, 10)]),
-                resp(A, True, True, 1, 101, pm), resp(A, False, True, 2, 102, pm), ("Free", 0), ("Retry",)]
+    def mixed(A, pm, fmt="native"):
+        return [("Create", 0, A, True, [0], 1, 0, 1, 2, [("WAll", 2, 0, 10)]),
+                ("Recv", 0, A, [0], 1, 3, 4, [("WAll", 4, 0, 10)]),
+                resp(A, True, True, 1, 101, pm), resp(A, False, True, 2, 102, pm, fmt), ("Free", 0, 0), ("Retry",)]
 
     # two creates on one socket (2 + 1 pairs), their three responses, a retry
-    sc.append(("same-socket-two-creates", 0, 3, "id", two_creates((1, 0), "id")))
+    sc.append(("same-socket-two-creates", 0, "id", [("Init", 0, 3)], two_creates((1, 0), "id")))
     # the stack refuses a create (put raises), the application re-issues it; two responses
     A = (1, 0)
-    sc.append(("refused-create-then-retry", 0, 2, "id",
-               [("CreateRefused", A, True, [0, 1], 2, 0, 1, 2),
-                ("Create", A, True, [0, 1], 2, 3, 4, 5, [("WAll", 5, 0, 20)]),
+    sc.append(("refused-create-then-retry", 0, "id", [("Init", 0, 2)],
+               [("CreateRefused", 0, A, True, [0, 1], 2, 0, 1, 2),
+                ("Create", 0, A, True, [0, 1], 2, 3, 4, 5, [("WAll", 5, 0, 20)]),
                 resp(A, True, True, 1, 101), resp(A, True, True, 2, 102)]
-               + ([("Recv", A, [0], 1, 6, 7, [("WAll", 7, 0, 10)]), resp(A, False, True, 3, 103)] if tier != "quick" else [])))
+               + ([("Recv", 0, A, [0], 1, 6, 7, [("WAll", 7, 0, 10)]), resp(A, False, True, 3, 103)] if tier != "quick" else [])))
     # create and receive roles mixed on one socket, colliding virtual qubit, a free --
     # as node 1 talking to node 0 over cross-connected sockets (purpose = remote side's socket id)
-    sc.append(("mixed-roles-colliding-qubit-remote0-swapped", 1, 2, "swap", mixed((0, 0), "swap")))
+    sc.append(("mixed-roles-colliding-qubit-remote0-swapped", 1, "swap", [("Init", 0, 2)], mixed((0, 0), "swap", "qlink")))
+    # two applications: a response arrives early for a request application 1 has not issued yet,
+    # application 0 is stopped, application 1 issues its measure-directly receive request;
+    # responses in the qlink-interface 1.0 format
+    B = (2, 1)
+    sc.append(("two-apps-early-response-stop-of-the-other", 0, "id", [("Init", 0, 1), ("Init", 1, 2)],
+               [resp(B, False, False, 1, 1, "id", "qlink"), ("Stop", 0),
+                ("Recv", 1, B, None, 2, 0, 1, [("WAll", 1, 0, 20)]), resp(B, False, False, 2, 0, "id", "qlink"), ("Retry",)]
+               + ([("Alloc", 1, 0)] if tier != "quick" else [])))
     if tier != "quick":
-        sc.append(("mixed-roles-colliding-qubit", 0, 2, "id", mixed((1, 0), "id")))
-        sc.append(("same-socket-two-creates-remote0-offset", 2, 3, ("off", 3), two_creates((0, 1), ("off", 3))))
+        sc.append(("mixed-roles-colliding-qubit", 0, "id", [("Init", 0, 2)], mixed((1, 0), "id")))
+        sc.append(("same-socket-two-creates-remote0-offset", 2, ("off", 3), [("Init", 0, 3)],
+                   two_creates((0, 1), ("off", 3), "qlink")))
         A, B = (1, 0), (2, 1)
         # two sockets, keep and measure, three pairs on one request
-        sc.append(("two-sockets-K-and-M", 0, 3, "id",
-                   [("Create", A, False, [], 3, 0, 1, 2, [("WAny", 2, 0, 30), ("WAll", 2, 0, 30)]),
-                    ("Recv", B, [1], 1, 3, 4, [("WAll", 4, 0, 10)]),
-                    resp(A, True, False, 1, 0), resp(A, True, False, 2, 1), resp(A, True, False, 3, 0),
-                    resp(B, False, True, 4, 104), ("Alloc", 1)]))
+        sc.append(("two-sockets-K-and-M", 0, "id", [("Init", 0, 3)],
+                   [("Create", 0, A, False, [], 3, 0, 1, 2, [("WAny", 2, 0, 30), ("WAll", 2, 0, 30)]),
+                    ("Recv", 0, B, [1], 1, 3, 4, [("WAll", 4, 0, 10)]),
+                    resp(A, True, False, 1, 0), resp(A, True, False, 2, 1, "id", "qlink"), resp(A, True, False, 3, 0),
+                    resp(B, False, True, 4, 104), ("Alloc", 0, 1)]))
         # three receive requests, one pair each, same socket, busy qubit in the middle; remote 0, swapped
         B = (0, 1)
-        sc.append(("three-requests-busy-middle-remote0-swapped", 3, 2, "swap",
-                   [("Recv", B, [0], 1, 0, 1, [("WAll", 1, 0, 10)]),
-                    ("Recv", B, [0], 1, 2, 3, [("WAll", 3, 0, 10)]),
-                    ("Recv", B, [1], 1, 4, 5, [("WSingle", 5, 2), ("WAll", 5, 0, 10)]),
+        sc.append(("three-requests-busy-middle-remote0-swapped", 3, "swap", [("Init", 0, 2)],
+                   [("Recv", 0, B, [0], 1, 0, 1, [("WAll", 1, 0, 10)]),
+                    ("Recv", 0, B, [0], 1, 2, 3, [("WAll", 3, 0, 10)]),
+                    ("Recv", 0, B, [1], 1, 4, 5, [("WSingle", 5, 2), ("WAll", 5, 0, 10)]),
                     resp(B, False, True, 1, 101, "swap"), resp(B, False, True, 2, 102, "swap"),
-                    resp(B, False, True, 3, 103, "swap"), ("Free", 0)]))
+                    resp(B, False, True, 3, 103, "swap"), ("Free", 0, 0)]))
+        # two applications sharing one socket and role: requests of both in one FIFO, a third one stopped
+        B = (2, 0)
+        sc.append(("two-apps-one-fifo-third-stopped", 1, "swap", [("Init", 0, 2), ("Init", 1, 2), ("Init", 2, 1)],
+                   [("Recv", 0, B, [0], 1, 0, 1, [("WAll", 1, 0, 10)]),
+                    ("Recv", 1, B, [1], 1, 0, 1, [("WAll", 1, 0, 10)]),
+                    resp(B, False, True, 1, 101, "swap"), resp(B, False, True, 2, 102, "swap", "qlink"),
+                    resp(B, False, True, 3, 103, "swap"), ("Stop", 2)]))
     return sc
 
 
-def exhaustive(runner, name, node, um, pm, events, report):
-    """all orderings of the events as a prefix tree; orderings in which a Free names a qubit
-    that is not allocated yet are pruned at that event (they fault by construction)"""
+def exhaustive(runner, name, node, pm, prefix, events, report):
+    """all orderings of the events (after the fixed prefix) as a prefix tree; orderings in which a
+    Free / Alloc names a qubit that is not allocated / free yet are pruned at that event"""
     roots = []
     count = [0]
+    prefix = list(prefix)
+    parent0 = None
+    w0 = runner.world(node, pm)
+    for i, ev in enumerate(prefix):
+        fault = w0.apply(ev)
+        n = runner.node(prefix[:i + 1], ev, fault, w0.observe())
+        (roots if parent0 is None else parent0["kids"]).append(n)
+        parent0 = n
 
-    def expand(prefix, remaining, parent):
+    def expand(done, remaining, parent):
         for i, ev in enumerate(remaining):
             if any(remaining[j] == ev for j in range(i)):
                 continue
-            path = prefix + [ev]
-            w = runner.world(node, um, pm)
-            ref = ei.FifoRef(node, um, pm)
-            fault = -1
+            path = prefix + done + [ev]
+            w = runner.world(node, pm)
+            ref = ei.FifoRef(node, pm)
             ok = True
             for e in path[:-1]:
                 w.apply(e)
                 ref.apply(e)
-            if ev[0] == "Free" and ref.um[ev[1]] is None:
+            if ev[0] == "Free" and ref.ums[ev[1]][ev[2]] is None:
                 continue
-            if ev[0] == "Alloc" and ref.um[ev[1]] is not None:
+            if ev[0] == "Alloc" and ref.ums[ev[1]][ev[2]] is not None:
+                continue
+            if ev[0] == "Stop" and ev[1] in ref.busy_apps():
                 continue
             fault = w.apply(ev)
             ob = w.observe() if fault < 0 else None
@@ -286,18 +345,18 @@ def exhaustive(runner, name, node, um, pm, events, report):
             n = runner.node(path, ev, fault, ob)
             runner.ctx.note_case(("exh", name, str(path)), nontrivial=len(path) >= 3)
             if fault >= 0:
-                report(node, um, path, f"event {ev[0]} raised (exception class {fault}) in a run that obeys the contract", pm)
+                report(node, path, f"event {ev[0]} raised (exception class {fault}) in a run that obeys the contract", pm)
                 ok = False
             else:
                 ref.apply(ev)
                 for b in ref.compare(ob):
-                    report(node, um, path, b, pm)
+                    report(node, path, b, pm)
                     ok = False
             (roots if parent is None else parent["kids"]).append(n)
             if ok:
-                expand(path, remaining[:i] + remaining[i + 1:], n)
+                expand(done + [ev], remaining[:i] + remaining[i + 1:], n)
 
-    expand([], list(events), None)
+    expand([], list(events), parent0)
     return roots, count[0]
 
 
@@ -307,12 +366,12 @@ def kind_of(text):
     return " ".join(re.sub(r"[^a-zA-Z ]+", " ", re.split(r"[\[\{:]", text)[0]).split())[:48]
 
 
-def shrink(runner, node, um, evs, text, pm="id"):
+def shrink(runner, node, evs, text, pm="id"):
     kind = kind_of(text)
 
     def fails(cand):
         try:
-            _, fl, _ = runner.run(node, um, cand, want_tree=False, pm=pm)
+            _, fl, _ = runner.run(node, cand, want_tree=False, pm=pm)
         except Exception:
             return False
         return any(kind_of(b) == kind for _, b in fl)
@@ -322,8 +381,8 @@ def shrink(runner, node, um, evs, text, pm="id"):
     while changed and len(evs) > 1:
         changed = False
         for i in range(len(evs) - 1, -1, -1):
-            if evs[i][0] in ("Create", "Recv"):
-                continue      # removing a request renumbers the subroutine ids later events name
+            if evs[i][0] in ("Create", "Recv", "CreateRefused", "Free", "Alloc", "Init"):
+                continue      # removing a subroutine renumbers the subroutine ids later events name
             cand = evs[:i] + evs[i + 1:]
             if fails(cand):
                 evs = cand
@@ -331,26 +390,32 @@ def shrink(runner, node, um, evs, text, pm="id"):
     return evs
 
 
-FINDING_EVENTS = [("Create", (1, 0), True, [0], 1, 0, 1, 2, []),          # hand-written: no wait after create_epr
+FINDING_EVENTS = [("Init", 0, 2),
+                  ("Create", 0, (1, 0), True, [0], 1, 0, 1, 2, []),          # hand-written: no wait after create_epr
                   resp((1, 0), True, True, 1, 101)]
 
 
 def run(ctx):
-    ctx.rule = ("event sequences on one controller: subroutines issuing create_epr / recv_epr (1-3 pairs, keep or measure, "
+    ctx.rule = ("event sequences on one controller with 1-3 applications (registered and stopped in between): subroutines "
+                "issuing create_epr / recv_epr (1-3 pairs, keep or measure, "
                 "1-3 sockets, both roles; own node id and remote node ids over {0,1,2,3} incl. remote 0 with own != 0; the network "
-                "stack's socket->purpose assignment is part of the scenario: identity, cross-connected sockets, offset) and then blocking in wait_all / wait_any / wait_single (kept alive as generators), "
+                "stack's socket->purpose assignment is part of the scenario: identity, cross-connected sockets, offset) and then blocking "
+                "in wait_all / wait_any / wait_single (kept alive as generators), "
                 "fault injection: the network stack refuses chosen create requests (put raises, the subroutine ends at that "
-                "line) and the application re-issues them on the same socket; link-layer OK responses arriving before or after the matching instruction, retries of the pending list, "
+                "line) and the application re-issues them on the same socket; link-layer OK responses, as native tuples or as "
+                "qlink-interface 1.0 Res* objects, arriving before or after the matching instruction (also before ANOTHER "
+                "application's instruction, across a stop of a third one), retries of the pending list, "
                 "polls of waiting subroutines, qfree/qalloc that un-block / block deferred keep responses. Random sequences obey "
-                "the contract (last wait covers the result array; response type = request type per socket; ids in range); "
-                "small scenarios are enumerated in EVERY ordering. After every event: queues, pending list, arrays, unit module, "
-                "live subroutines compared with the Coq model, and with an independent FIFO reference (oracle). Non-trivial = "
-                "at least one response consumed and >= 3 events; distinct = distinct event list")
+                "the contract (last wait covers the result array; response type = request type per socket; ids in range; an "
+                "application is stopped only when nothing of it is outstanding); "
+                "small scenarios are enumerated in EVERY ordering. After every event: queues, pending list, arrays and unit modules of "
+                "all applications, live subroutines compared with the Coq model, and with an independent FIFO reference (oracle). "
+                "Non-trivial = at least one response consumed and >= 3 events; distinct = distinct event list")
     ctx.props("C12")
     runner = Runner(ctx)
     ctx.trusted.append("harness/epr_impl.py: Executor/QNodeController/BaseNetworkStack subclassed at their extension points only "
-                       "(_do_wait yields, _wait_to_handle_epr_responses returns); subroutines are driven as generators; reads "
-                       "_epr_create_requests, _epr_recv_requests, _pending_epr_responses, _app_arrays, _qubit_unit_modules, _subroutines")
+                       "(_do_wait yields, _wait_to_handle_epr_responses returns, put may refuse); subroutines are driven as generators; "
+                       "reads _epr_create_requests, _epr_recv_requests, _pending_epr_responses, _app_arrays, _qubit_unit_modules, _subroutines")
     ctx.trusted.append("correspondence: Exec/EprCheck.v evaluated by vm_compute inside coqc on generated prefix trees")
     ctx.assume.append("yield points: _wait_to_handle_epr_responses and _do_wait return control to the back end, which eventually calls "
                       "_handle_pending_epr_responses again (event Retry); the base class's own recursion is not a scheduler")
@@ -358,14 +423,17 @@ def run(ctx):
                       "an M response for a K request silently, as the code does (C12_type_mismatch_refuted)")
     ctx.assume.append("issuer_alive: theorems are about fault-free runs; a response handled after its issuing subroutine ended "
                       f"faults (C12_issuer_dead_refuted) -- reported as known finding {FINDING_KEY}")
+    ctx.assume.append("an application is stopped only when it has no outstanding request and no waiting subroutine (the SDK's close "
+                      "flushes and waits first); the model and the code fault when a response is handled for a stopped application")
     ctx.assume.append("registers are per application and shared by concurrent subroutines: the harness gives every live subroutine "
                       "its own pair of registers for wait bounds (wait_any / wait_single re-read them at every poll)")
-    ctx.assume.append("timing and ERR responses are not modelled")
+    ctx.assume.append("timing and ERR responses are not modelled; the response format (native / qlink-interface 1.0) is not part of "
+                      "the model: both must lead to the same bookkeeping")
 
     violations = []
 
-    def report(node, um, evs, text, pm="id"):
-        violations.append((node, um, pm, list(evs), text))
+    def report(node, evs, text, pm="id"):
+        violations.append((node, pm, list(evs), text))
 
     # ---- corpus
     n_corpus = 0
@@ -375,11 +443,11 @@ def run(ctx):
                 rec = json.load(open(os.path.join(CORPUS, f)))
                 evs = [ev_from_json(e) for e in rec["events"]]
                 pm = from_pm(rec.get("pm", "id"))
-                _, fl, _ = runner.run(rec["node"], rec["um"], evs, want_tree=False, pm=pm)
+                _, fl, _ = runner.run(rec["node"], evs, want_tree=False, pm=pm)
                 n_corpus += 1
                 ctx.note_case(("corpus", f), True)
                 for step, b in fl:
-                    report(rec["node"], rec["um"], evs[:step + 1], b, pm)
+                    report(rec["node"], evs[:step + 1], b, pm)
     ctx.coverage["corpus_cases"] = n_corpus
 
     # ---- random interleavings
@@ -391,63 +459,84 @@ def run(ctx):
     lens = {}
     for _ in range(n_seq):
         length = ctx.rng.choice([6, 12, 20, 35, 50])
-        node, um, pm, evs, consumed = gen.scenario(length)
-        root, fl, faults = runner.run(node, um, evs, pm=pm)
-        groups.append((pm, node, um, [root]))
+        node, pm, evs, consumed = gen.scenario(length)
+        root, fl, faults = runner.run(node, evs, pm=pm)
+        groups.append((pm, node, [root]))
         lens[length] = lens.get(length, 0) + 1
         ctx.note_case(str(evs), nontrivial=consumed >= 1 and len(evs) >= 3)
         if len(ctx.samples) < 2 and consumed >= 2:
-            ctx.samples.append(dict(node=node, unit_module=um, purpose_map=jsonable(pm), events=jsonable(evs[:10])))
+            ctx.samples.append(dict(node=node, purpose_map=jsonable(pm), events=jsonable(evs[:10])))
         for step, b in fl:
-            report(node, um, evs[:step + 1], b, pm)
+            report(node, evs[:step + 1], b, pm)
     ctx.coverage["sequence_lengths"] = lens
     ctx.coverage["event_distribution"] = stats
 
     # ---- every ordering of small scenarios
     exh = {}
     big_groups = []
-    for name, node, um, pm, events in small_scenarios(ctx.tier):
-        roots, cnt = exhaustive(runner, name, node, um, pm, events, report)
+    for name, node, pm, prefix, events in small_scenarios(ctx.tier):
+        roots, cnt = exhaustive(runner, name, node, pm, prefix, events, report)
         exh[name] = dict(events=len(events), nodes=cnt, node=node, purpose_map=jsonable(pm))
-        big_groups += [(pm, node, um, [r]) for r in roots]      # one correspondence file per first event
+        big_groups.append((pm, node, roots))
     ctx.coverage["every_ordering_scenarios"] = exh
     ctx.log(f"implementation runs done: {n_seq} random sequences, orderings {exh}, oracle failures {len(violations)}")
 
     # ---- streams that break the contract: model must still agree (fault class), oracle not applied
     malformed = []
     A = (1, 0)
+    I2 = ("Init", 0, 2)
     bad_streams = [
-        (0, 2, FINDING_EVENTS),
-        (0, 2, [("Create", A, True, [0], 1, 0, 1, 2, [("WAll", 2, 0, 10)]), resp(A, True, False, 1, 1)]),      # M answer to K request
-        (0, 2, [("Create", A, False, [], 1, 0, 1, 2, [("WAll", 2, 0, 10)]), resp(A, True, True, 1, 101)]),     # K answer to M request
-        (0, 2, [("Recv", A, [5], 1, 0, 1, [("WAll", 1, 0, 10)]), resp(A, False, True, 1, 101)]),               # virtual id out of range
-        (0, 2, [("Recv", A, [-1], 1, 0, 1, [("WAll", 1, 0, 10)]), resp(A, False, True, 1, 101),
-                ("Recv", A, [-1], 1, 2, 3, [("WAll", 3, 0, 10)]), resp(A, False, True, 2, 102)]),              # negative id: alias, busy -> error
-        (0, 2, [("Free", 0)]),
-        (0, 2, [("Alloc", 0), ("Alloc", 0)]),
-        (0, 2, [("Alloc", 2)]),
-        (1, 2, [("Recv", (1, 0), [0], 1, 0, 1, [("WAll", 1, 0, 10)]), resp((1, 0), False, True, 1, 101)]),     # remote == own node id: taken as creator
+        (0, FINDING_EVENTS),
+        (0, [I2, ("Create", 0, A, True, [0], 1, 0, 1, 2, [("WAll", 2, 0, 10)]), resp(A, True, False, 1, 1)]),      # M answer to K request
+        (0, [I2, ("Create", 0, A, False, [], 1, 0, 1, 2, [("WAll", 2, 0, 10)]), resp(A, True, True, 1, 101)]),     # K answer to M request
+        (0, [I2, ("Recv", 0, A, [5], 1, 0, 1, [("WAll", 1, 0, 10)]), resp(A, False, True, 1, 101)]),               # virtual id out of range
+        (0, [I2, ("Recv", 0, A, [-1], 1, 0, 1, [("WAll", 1, 0, 10)]), resp(A, False, True, 1, 101),
+             ("Recv", 0, A, [-1], 1, 2, 3, [("WAll", 3, 0, 10)]), resp(A, False, True, 2, 102)]),                  # negative id: alias, busy -> error
+        (0, [I2, ("Free", 0, 0)]),
+        (0, [I2, ("Alloc", 0, 0), ("Alloc", 0, 0)]),
+        (0, [I2, ("Alloc", 0, 2)]),
+        (0, [I2, I2]),                                                                                             # registered twice
+        (0, [I2, ("Stop", 1)]),
+        (0, [I2, ("Alloc", 3, 0)]),                                                                                # subroutine of an unregistered app
+        (1, [I2, ("Recv", 0, (1, 0), [0], 1, 0, 1, [("WAll", 1, 0, 10)]), resp((1, 0), False, True, 1, 101)]),     # remote == own node id: taken as creator
     ]
-    for node, um, evs in bad_streams:
-        root, _, faults = runner.run(node, um, evs, oracle=False)
-        malformed.append(("id", node, um, [root]))
+    for node, evs in bad_streams:
+        root, _, faults = runner.run(node, evs, oracle=False)
+        malformed.append(("id", node, [root]))
         ctx.note_case(str(evs), True)
     groups += malformed
 
     # ---- the recorded finding, replayed through the oracle every run
-    _, fl, faults = runner.run(0, 2, FINDING_EVENTS, want_tree=False)
+    _, fl, faults = runner.run(0, FINDING_EVENTS, want_tree=False)
     if fl:
         ctx.violation("a response that arrives after the issuing subroutine has ended is never consumed: "
                       "_handle_pending_epr_responses raises 'Unknown subroutine with ID n' and the response stays pending",
-                      dict(node=0, um=2, events=jsonable(FINDING_EVENTS), failures=[b for _, b in fl]), key=FINDING_KEY)
+                      dict(node=0, events=jsonable(FINDING_EVENTS), failures=[b for _, b in fl]), key=FINDING_KEY)
 
     # ---- model side
     files = {}
     shard = 10
     for i in range(0, len(groups), shard):
         files[f"cases_{i // shard}.v"] = groups[i:i + shard]
-    for i, g in enumerate(big_groups):
-        files[f"cases_ord_{i}.v"] = [g]
+    k = 0
+    for pm, node, roots in big_groups:
+        # the fixed prefix is a chain: split below its last node, one file per first enumerated event
+        chain, n = [], roots[0]
+        while True:
+            chain.append(n)
+            if len(n["kids"]) != 1 or n["id"] is None:
+                break
+            n = n["kids"][0]
+        last = chain[-1]
+        kids = last["kids"] if len(last["kids"]) > 1 else [None]
+        for kid in kids:
+            # rebuild the chain with a single branch
+            def clone(j):
+                c = dict(chain[j])
+                c["kids"] = [clone(j + 1)] if j + 1 < len(chain) else ([kid] if kid is not None else [])
+                return c
+            files[f"cases_ord_{k}.v"] = [(pm, node, [clone(0)])]
+            k += 1
     for fn, g in files.items():
         ei.write_case_file(os.path.join(ctx.build, fn), g)
     results = ctx.run_case_files(list(files), timeout=1500, jobs=14)
@@ -460,7 +549,7 @@ def run(ctx):
         if len(fl) != 1:
             ctx.gen_obligation(f"correspondence file {fn} output parsed", False, r.out[-300:])
             continue
-        for nid in fl[0]:
+        for nid in set(fl[0]):
             mismatches.append((fn, runner.idmap[nid]))
     ctx.coverage["model_impl_mismatches"] = len(mismatches)
     ctx.coverage["traces_validated_against_impl"] = len(groups) + sum(v["nodes"] for v in exh.values())
@@ -474,22 +563,22 @@ def run(ctx):
     if ctx.broken and not violations:
         ctx.log("searching for a failing event sequence")
         for _ in range(1200):
-            node, um, pm, evs, _ = gen.scenario(ctx.rng.choice([8, 15, 30]))
-            _, fl, _ = runner.run(node, um, evs, want_tree=False, pm=pm)
+            node, pm, evs, _ = gen.scenario(ctx.rng.choice([8, 15, 30]))
+            _, fl, _ = runner.run(node, evs, want_tree=False, pm=pm)
             if fl:
-                report(node, um, evs[:fl[0][0] + 1], fl[0][1], pm)
+                report(node, evs[:fl[0][0] + 1], fl[0][1], pm)
                 break
 
     seen = set()
-    for node, um, pm, evs, text in violations:
+    for node, pm, evs, text in violations:
         k = kind_of(text)
         if k in seen:
             continue
         seen.add(k)
-        small = shrink(runner, node, um, evs, text, pm)
-        _, fl, faults = runner.run(node, um, small, want_tree=False, pm=pm)
+        small = shrink(runner, node, evs, text, pm)
+        _, fl, faults = runner.run(node, small, want_tree=False, pm=pm)
         ctx.violation(text if not fl else fl[-1][1],
-                      dict(node=node, um=um, pm=jsonable(pm), events=jsonable(small), failures=[b for _, b in fl]), key=None)
+                      dict(node=node, pm=jsonable(pm), events=jsonable(small), failures=[b for _, b in fl]), key=None)
     ctx.coverage["oracle_failures_total"] = len(violations)
     ctx.finish()
 
@@ -499,13 +588,16 @@ def replay(ctx, path):
     key = rec.get("key")
     rec = rec.get("replay", rec)
     runner = Runner(ctx)
-    evs = [ev_from_json(e) for e in rec["events"]]
-    pm = from_pm(rec.get("pm", "id"))
-    _, fl, faults = runner.run(rec["node"], rec["um"], evs, want_tree=False, pm=pm)
+    events = rec["events"]
+    if "um" in rec and not any(e[0] == "Init" for e in events):
+        events = upgrade(events, rec["um"])
+    evs = [ev_from_json(e) for e in events]
+    pm = from_pm(rec.get("pm") or "id")
+    _, fl, faults = runner.run(rec["node"], evs, want_tree=False, pm=pm)
     print("replay: faults", faults)
     for step, b in fl:
         print(f"  step {step} {evs[step][0]}: {b}")
     if fl:
-        ctx.violation(fl[-1][1], dict(node=rec["node"], um=rec["um"], pm=jsonable(pm), events=jsonable(evs),
+        ctx.violation(fl[-1][1], dict(node=rec["node"], pm=jsonable(pm), events=jsonable(evs),
                                       failures=[b for _, b in fl]), key=key)
     ctx.finish()
